@@ -44,6 +44,7 @@ type Server struct {
 	// Connections accepted from the listeners, closed by Close.
 	connsLock sync.Mutex
 	conns     map[net.Conn]struct{}
+	closed    bool
 }
 
 // NewServer creates the Pion TURN server.
@@ -158,6 +159,7 @@ func (s *Server) Close() error {
 	// The listeners are closed, so no new connection can show up: close the accepted
 	// ones, which ends their read loops and releases their allocations.
 	s.connsLock.Lock()
+	s.closed = true
 	for conn := range s.conns {
 		_ = conn.Close()
 	}
@@ -185,6 +187,13 @@ func (s *Server) readListener(l net.Listener, am *allocation.Manager) {
 		}
 
 		s.connsLock.Lock()
+		if s.closed {
+			// Accepted while Close was running: Close will not see this connection any more.
+			s.connsLock.Unlock()
+			_ = conn.Close()
+
+			continue
+		}
 		s.conns[conn] = struct{}{}
 		s.connsLock.Unlock()
 
